@@ -56,7 +56,7 @@ void scen_monitor(hx::Desc& d) {
 }
 
 void scen_runtime(hx::Desc& d) {
-    int variant = (int)sim::draw(7, "variant");
+    int variant = (int)sim::draw(8, "variant");
     static const int ptsv[] = {0, 2, 10};
     int pts = sim::draw_of(ptsv, "points");
     switch (variant) {
@@ -153,6 +153,34 @@ void scen_runtime(hx::Desc& d) {
         hx::run_fibers(fns);
         SIM_CHECK(done == total && spawned_ran == nspawn, "oracle:wait-incomplete", "%d of %d enqueued and %d of %d spawned tasks ran", done, total, spawned_ran, nspawn);
         for (auto* a : tg_ar) delete a;
+        break;
+    }
+    case 7: {   // the worker limit DROPS to "no worker at all" while enqueued work is pending and every worker is asleep:
+                // the pending task still has to run (mandatory worker), and so do tasks enqueued afterwards
+        int shape = (int)sim::draw(2, "shape"), n = (int)sim::draw_range(1, 3, "n"), gap = (int)sim::draw(25, "gap"), later = (int)sim::draw(3, "later");
+        d.add(hx::fmt("limit drops to 1 after the enqueue, workers asleep: %s, %d task(s), gap=%d, %d enqueued afterwards", shape ? "enqueue from inside the only slot of arena(1,0)" : "enqueue into an idle arena", n, gap, later)); d.publish();
+        tbb::parallel_for(0, 2 * sim::g_cfg.P, [](int) { for (int i = 0; i < 10; ++i) sim::upoint(); }, tbb::simple_partitioner());   // the workers exist ...
+        sim::wait_quiescent();                                                                                                         // ... and are all asleep
+        std::vector<sim::event*> evs;
+        std::unique_ptr<tbb::global_control> gc;
+        auto task = [pts](sim::event* e) { return [e, pts] { for (int j = 0; j < pts; ++j) sim::upoint(); e->signal(); }; };
+        if (shape) {
+            tbb::task_arena a(1, 0);
+            a.execute([&] {
+                for (int k = 0; k < n; ++k) { evs.push_back(new sim::event); a.enqueue(task(evs.back())); }
+                for (int j = 0; j < gap; ++j) sim::upoint();
+                gc.reset(new tbb::global_control(tbb::global_control::max_allowed_parallelism, 1));
+            });
+            for (int k = 0; k < later; ++k) { evs.push_back(new sim::event); a.enqueue(task(evs.back())); }
+            for (auto* e : evs) e->wait();
+        } else {
+            tbb::task_arena a((int)sim::draw_range(1, 3, "maxc"));
+            for (int k = 0; k < n; ++k) { evs.push_back(new sim::event); a.enqueue(task(evs.back())); }
+            for (int j = 0; j < gap; ++j) sim::upoint();
+            gc.reset(new tbb::global_control(tbb::global_control::max_allowed_parallelism, 1));
+            for (int k = 0; k < later; ++k) { evs.push_back(new sim::event); a.enqueue(task(evs.back())); }
+            for (auto* e : evs) e->wait();
+        }
         break;
     }
     case 3: {   // task_group whose last task finishes on another thread while the owner is about to sleep
